@@ -40,6 +40,7 @@ func runC19(c *Ctx) {
 	checkWebUIAndIsRunning(c)
 	checkLockContentParsable(c)
 	checkInterruptCleaners(c)
+	checkNoSendBeforeHandover(c, "R19.9")
 	isLoad := func(n string) bool {
 		return n == "commands/execenv.LoadBackend" || n == "commands/execenv.LoadBackendEnsureUser"
 	}
@@ -791,4 +792,106 @@ func funcValuesOf(v ssa.Value, depth int) []*ssa.Function {
 		}
 	}
 	return out
+}
+
+// R19.9: a function that hands back the receiving end of an unbuffered channel it has just made must not
+// send on it — directly or through a callee it hands the channel to — before it returns: nobody can be
+// receiving yet. (RepoCache.lock reports the removal of a stale lock on the events channel: when the lock
+// step runs in the constructor instead of the producer goroutine, every open after a crash blocks forever.)
+func checkNoSendBeforeHandover(c *Ctx, rule string) {
+	w := c.W
+	c.Doc(rule, "in every module function that makes an unbuffered channel and returns it: no send on that channel and no synchronous call receiving it as an argument in the function's own body (sends belong to the goroutine started before the return)")
+	n := 0
+	for _, f := range w.ModFns {
+		if isInstance(f) || w.isTestHelper(f) || len(f.Blocks) == 0 {
+			continue
+		}
+		for _, b := range f.Blocks {
+			for _, ins := range b.Instrs {
+				mc, ok := ins.(*ssa.MakeChan)
+				if !ok {
+					continue
+				}
+				if k, isK := constInt(mc.Size); !isK || k != 0 {
+					continue
+				}
+				// returned?
+				returned := false
+				aliases := map[ssa.Value]bool{mc: true}
+				for _, r := range *mc.Referrers() {
+					if ct, isCT := r.(*ssa.ChangeType); isCT {
+						aliases[ct] = true
+					}
+					if ct, isCT := r.(*ssa.MakeInterface); isCT {
+						aliases[ct] = true
+					}
+				}
+				for _, ret := range Returns(f) {
+					for _, rv := range ret.Results {
+						for _, o := range origins(rv) {
+							if aliases[o.Val] || o.Val == ssa.Value(mc) {
+								returned = true
+							}
+						}
+						if aliases[rv] {
+							returned = true
+						}
+					}
+				}
+				if !returned {
+					continue
+				}
+				n++
+				c.Sites++
+				c.seeFn(funcName(f))
+				bad := ""
+				isCh := func(v ssa.Value) bool {
+					if aliases[v] {
+						return true
+					}
+					for _, o := range origins(v) {
+						if o.Val == ssa.Value(mc) {
+							return true
+						}
+					}
+					return false
+				}
+				for _, b2 := range f.Blocks {
+					for _, i2 := range b2.Instrs {
+						switch x := i2.(type) {
+						case *ssa.Send:
+							if isCh(x.Chan) {
+								bad = "send at " + w.InstrPos(x)
+							}
+						case *ssa.Call:
+							for _, a := range x.Common().Args {
+								if isCh(a) {
+									nm, _ := callName(x.Common())
+									// only callees that can send matter
+									if callee := x.Common().StaticCallee(); callee != nil && len(callee.Blocks) > 0 {
+										sends := false
+										for _, hf := range fnAndHelpers(callee, 2) {
+											for _, hb := range hf.Blocks {
+												for _, hi := range hb.Instrs {
+													if _, isSd := hi.(*ssa.Send); isSd {
+														sends = true
+													}
+												}
+											}
+										}
+										if !sends {
+											continue
+										}
+									}
+									bad = "call of " + nm + " at " + w.InstrPos(x) + " with the channel"
+								}
+							}
+						}
+					}
+				}
+				c.Check(bad == "", rule, funcName(f)+":no-send-before-handover", w.InstrPos(mc), "the channel is only written by goroutines", "the unbuffered channel returned by "+funcName(f)+" is written before it is handed to the caller ("+bad+"): the first send blocks forever, because the only receiver is the caller that is still waiting for the function to return")
+			}
+		}
+	}
+	c.Check(n >= 5, rule, "expected:channel-returning-functions", "module", fmt.Sprintf("%d functions returning an unbuffered channel they made", n), fmt.Sprintf("only %d such functions found (reference ≥ 10)", n))
 }
